@@ -126,7 +126,12 @@ def findOrAddCap (cap : Nat) : Int → Int → Int → M Int := findOrAddOver (f
 def findOrAddCapL (cap : Nat) : Int → Int → Int → M Int := findOrAddOver (findOrAddCapLit cap)
 def findOrAddCapO (cap : Nat) : Int → Int → Int → M Int := findOrAddOver (findOrAddCapOld cap)
 
-/-- `_ite(g, u, v)` over any `find_or_add` (`iteG findOrAdd = iteF`: `DD.iteG_findOrAdd`) -/
+/-- the last step of `_ite`: `self._ite_table[(g, u, v)] = w; return w` -/
+def cachePut (g u v w : Int) : M Int := fun m3 =>
+  (.ok w, { m3 with cache := m3.cache.insert (iteKey g u v) w })
+
+/-- `_ite(g, u, v)` over any `find_or_add`: the text of `iteF` with the three calls in sequence
+written with `M.bind'` (`iteG findOrAdd = iteF`: `DD.iteG_findOrAdd`) -/
 def iteG (foa : Int → Int → Int → M Int) : Nat → Int → Int → Int → M Int
   | 0, _, _, _ => fun m => (.error .fuel, m)
   | f+1, g, u, v => fun m =>
@@ -140,15 +145,9 @@ def iteG (foa : Int → Int → Int → M Int) : Nat → Int → Int → Int →
         let z := min lg (min lu lv)
         match topCofactor m.tbl g z, topCofactor m.tbl u z, topCofactor m.tbl v z with
         | .ok (g0, g1), .ok (u0, u1), .ok (v0, v1) =>
-          match iteG foa f g0 u0 v0 m with
-          | (.error e, m1) => (.error e, m1)
-          | (.ok p, m1) =>
-            match iteG foa f g1 u1 v1 m1 with
-            | (.error e, m2) => (.error e, m2)
-            | (.ok q, m2) =>
-              match foa z p q m2 with
-              | (.error e, m3) => (.error e, m3)
-              | (.ok w, m3) => (.ok w, { m3 with cache := m3.cache.insert (iteKey g u v) w })
+          M.bind' (iteG foa f g0 u0 v0) (fun p =>
+            M.bind' (iteG foa f g1 u1 v1) (fun q =>
+              M.bind' (foa z p q) (cachePut g u v))) m
         | .error e, _, _ => (.error e, m)
         | _, .error e, _ => (.error e, m)
         | _, _, .error e => (.error e, m)
